@@ -176,8 +176,9 @@ def compile (isFn : Nat → Bool) (c : Ctx) : Expr → G (List Instr × Bool)
   | .nilLit => pure ([.push .nil], c.tail)
   | .sym x => pure ([.envToStack x], c.tail)
   | .arr es => do
-    let (code, t) ← compileAll isFn c es
-    pure (code ++ [.callArr es.length], t)
+    -- the elements are operands of the constructor call, never tail positions (fix C04-08)
+    let (code, _) ← compileAll isFn { c with tail := false } es
+    pure (code ++ [.callArr es.length], c.tail)
   | .call (.sym h) args => do
     let tmpl := c.known.lookup h
     let gs ← get
@@ -212,8 +213,9 @@ def compile (isFn : Nat → Bool) (c : Ctx) : Expr → G (List Instr × Bool)
     pure (asmSC true cs, c.tail)
   | .let_ seq bs body => do
     let c1 := { c with scopes := c.scopes + 1 }
-    let (rhs, t) ← compileBinds isFn c1 seq bs
-    let (b, t) ← compileBegin isFn { c1 with tail := t } body
+    -- the initialisers are not tail positions; `gen.Tail` is restored for the body (fix C04-08)
+    let (rhs, _) ← compileBinds isFn { c1 with tail := false } seq bs
+    let (b, t) ← compileBegin isFn c1 body
     let binds := if seq then [] else (bs.map (fun p => Instr.popStackPutEnv p.1)).reverse
     pure ([.addScope] ++ rhs ++ binds ++ b ++ [.removeScope], t)
   | .newScope es =>
